@@ -1208,6 +1208,21 @@ func (s *ScopedKeyManager) nextAddresses(ns walletdb.ReadWriteBucket,
 
 		for _, info := range addressInfo {
 			ma := info.managedAddr
+
+			// The manager may have been locked after these
+			// addresses were derived but before the transaction
+			// committed. Locking only clears the addresses it
+			// finds in the cache, so make sure no clear text key
+			// enters the cache of a locked manager.
+			if s.rootManager.IsLocked() {
+				switch addr := ma.(type) {
+				case *managedAddress:
+					addr.lock()
+				case *scriptAddress:
+					addr.lock()
+				}
+			}
+
 			s.addrs[addrKey(ma.Address().ScriptAddress())] = ma
 
 			// Add the new managed address to the list of addresses
